@@ -238,6 +238,15 @@ func genC03(r *kit.RNG) *C03Scenario {
 			{GapMs: 200, Cut: "below", CD: true, Wire: true}, {GapMs: 200, Cut: "below", CD: true, Wire: false}, {GapMs: 200, Cut: "below", CD: r.Chance(0.5), Wire: r.Chance(0.5)}}
 		sc.Ops = append(sc.Ops[:at:at], append(rec, sc.Ops[at:]...)...)
 	}
+	if sc.MaskBits == 0 && r.Chance(0.3) {
+		// failure route (full-width keys only: with narrowed keys delegations and failures of
+		// unrelated zones collide and SERVFAILs abound, which the controls cannot tell apart): every server of dead.uq.test. is silent, so the zone's failure is
+		// remembered; x\.dead.uq.test. (one label "x.dead" under uq.test.) is beside that zone,
+		// not in it, and uq.test. answers for it
+		at := r.Intn(len(sc.Ops) + 1)
+		rec := []C03Op{{GapMs: 300, Cut: "fail", Wire: r.Chance(0.5)}, {GapMs: 200, Cut: "faildotted", Wire: r.Chance(0.5), CD: r.Chance(0.2)}}
+		sc.Ops = append(sc.Ops[:at:at], append(rec, sc.Ops[at:]...)...)
+	}
 	return sc
 }
 
@@ -335,6 +344,8 @@ func c03Run(sc *C03Scenario, tr *kit.Trace, res *kit.Result) {
 			{Name: ".", Signed: true, Alg: dns.ED25519, KeyIdx: 1, NSNames: []string{"a.root-servers.net."}, Addrs: []string{"198.41.0.4"}},
 			{Name: "test.", Signed: true, Secure: true, Alg: dns.ED25519, KeyIdx: 2, NSNames: []string{"ns.test."}, Addrs: []string{"192.0.9.1"}},
 			{Name: "uq.test.", NSNames: []string{"ns.uq.test."}, Addrs: []string{"192.0.9.7"}},
+			// dead.uq.test.: its only server never answers (fault below): a zone-wide failure
+			{Name: "dead.uq.test.", NSNames: []string{"ns.dead.uq.test."}, Addrs: []string{"192.0.9.99"}, Records: []string{"www.dead.uq.test. 300 IN A 10.9.9.9"}},
 			{Name: "sq.test.", Signed: true, Secure: true, Alg: dns.ED25519, KeyIdx: 4, NSNames: []string{"ns.sq.test."}, Addrs: []string{"192.0.9.8"},
 				Records: []string{"keep.sq.test. 300 IN A 10.9.9.1", "zz.sq.test. 300 IN A 10.9.9.2", "a\\.nx.sq.test. 300 IN A 10.9.9.7"}},
 		},
@@ -351,14 +362,15 @@ func c03Run(sc *C03Scenario, tr *kit.Trace, res *kit.Result) {
 		return
 	}
 	defer g.Close()
+	g.Res.Net.SetFaults([]simnet.Fault{{Kind: "drop", Addr: "192.0.9.99"}})
 	upstream := map[string]int{} // question identity -> upstream queries seen
 	g.Hook = func(addr netip.Addr, q *simnet.Query, honest *authsim.Answer) []simnet.Reply {
 		if addr.String() != "192.0.9.7" || q.Msg == nil || len(q.Msg.Question) != 1 {
 			return nil
 		}
 		qq := q.Msg.Question[0]
-		if strings.EqualFold(qq.Name, "uq.test.") || qq.Qclass != dns.ClassINET {
-			return nil
+		if strings.EqualFold(qq.Name, "uq.test.") || qq.Qclass != dns.ClassINET || dns.IsSubDomain("dead.uq.test.", strings.ToLower(qq.Name)) {
+			return nil // (names at or below dead.uq.test. get the zone's own answer: the referral)
 		}
 		buf := make([]byte, 300)
 		n, err := dns.PackDomainName(strings.ToLower(qq.Name), buf, 0, nil, false)
@@ -716,6 +728,32 @@ func c03Cut(g *world.Ing, op C03Op, i int, client netip.AddrPort, tr *kit.Trace,
 	}
 	ingress := map[bool]string{true: "wire", false: "decoded"}[op.Wire]
 	switch op.Cut {
+	case "fail":
+		m := ask("www.dead.uq.test.")
+		if m != nil {
+			tr.Add("op %d %s fail www.dead.uq.test. cd=%v -> %s", i, ingress, op.CD, dns.RcodeToString[m.Rcode])
+		}
+	case "faildotted":
+		// (asked once per scenario, between two control questions for fresh names of uq.test.:
+		// a SERVFAIL that some other remembered failure explains - of uq.test., test. or the
+		// root, whatever caused it - takes a control down with it and is not judged)
+		c0 := ask(fmt.Sprintf("ctla%d.uq.test.", i))
+		m := ask("x\\.dead.uq.test.")
+		if m == nil {
+			return true
+		}
+		tr.Add("op %d %s faildotted x\\.dead.uq.test. cd=%v -> %s an=%d", i, ingress, op.CD, dns.RcodeToString[m.Rcode], len(m.Answer))
+		tr.Shape(fmt.Sprintf("faildot:%v:%s:%d", op.CD, ingress, m.Rcode))
+		if m.Rcode == dns.RcodeServerFailure {
+			c1 := ask(fmt.Sprintf("ctlb%d.uq.test.", i))
+			if c0 == nil || c1 == nil || c0.Rcode != dns.RcodeSuccess || c1.Rcode != dns.RcodeSuccess {
+				res.Probes["faildotted-servfail-with-failing-control"]++
+				return true
+			}
+			res.Fail("C03/answer-of-another-question", "op %d (%s ingress): x\\.dead.uq.test./A (first label \"x.dead\", a name of uq.test. beside the zone dead.uq.test.) was answered SERVFAIL while fresh names of uq.test. asked just before and just after it were resolved: the remembered failure of dead.uq.test. was applied to a name that is not at or below it\n%s", i, ingress, m)
+			return false
+		}
+		res.Probes["faildotted-answered"]++
 	case "deny":
 		m := ask("nx.sq.test.")
 		if m != nil {
